@@ -368,8 +368,13 @@ where
     ) -> Result<(), Self::Error> {
         let buffer = encode(vault).await?;
 
-        let file =
-            OpenOptions::new().write(true).open(&self.file_path).await?;
+        // Truncate so that a replacement which encodes shorter
+        // than the current file does not leave stale rows behind
+        let file = OpenOptions::new()
+            .write(true)
+            .truncate(true)
+            .open(&self.file_path)
+            .await?;
         let mut guard = file.lock_write().await.map_err(|e| e.error)?;
         guard.write_all(&buffer).await?;
         guard.flush().await?;
